@@ -119,13 +119,11 @@ func (t *template) Frag(ctx context.Context) iter.Seq[string] {
 					name := named.String()
 
 					if v, ok := argSet[name]; ok {
-						if v.IsNil() {
-							continue
-						}
-
-						for code := range v.Frag(ctx) {
-							if !yield(code) {
-								return
+						if !v.IsNil() {
+							for code := range v.Frag(ctx) {
+								if !yield(code) {
+									return
+								}
 							}
 						}
 					} else {
